@@ -51,6 +51,7 @@ fn real_main() -> i32 {
         "miri-c14" => c14::miri_main(&args[1..]),
         "c15" => c15::main(&env),
         "c20" => c20::main(&env),
+        "c20-capacity" => c20::capacity_main(&env),
         "miri-c20" => c20::miri_main(&args[1..]),
         "miri-noop" => {
             println!("MIRI-NOOP ok");
